@@ -798,7 +798,7 @@ impl WmoParser {
             );
         }
 
-        let mut doodads = Vec::with_capacity(actual_doodad_count as usize);
+        let mut doodads = Vec::with_capacity((actual_doodad_count as usize).min(4096));
 
         for _ in 0..actual_doodad_count {
             let name_index_raw = reader.read_u32_le()?;
